@@ -102,6 +102,37 @@ func allocsUnder(v ssa.Value, seen map[ssa.Value]bool, out map[*ssa.Alloc]bool) 
 	}
 }
 
+// fieldPath describes an address as the chain of struct field indices below its base; ok=false
+// when the chain contains an index step or a phi (then the comparison is not attempted).
+func fieldPath(v ssa.Value) (string, bool) {
+	path := ""
+	for {
+		switch x := v.(type) {
+		case *ssa.FieldAddr:
+			path = fmt.Sprintf(".%d%s", x.Field, path)
+			v = x.X
+		case *ssa.Alloc:
+			return path, true
+		default:
+			return "", false
+		}
+	}
+}
+
+// differentFieldPaths: both addresses are pure field chains of a local and name different fields
+// (neither is a prefix of the other), so a store to one cannot be observed by a load of the other.
+func differentFieldPaths(a, b ssa.Value) bool {
+	pa, oka := fieldPath(a)
+	pb, okb := fieldPath(b)
+	if !oka || !okb {
+		return false
+	}
+	if strings.HasPrefix(pa, pb) || strings.HasPrefix(pb, pa) {
+		return false
+	}
+	return true
+}
+
 func isMachField(fa *ssa.FieldAddr) bool {
 	pt, ok := fa.X.Type().Underlying().(*types.Pointer)
 	if !ok {
@@ -178,7 +209,7 @@ func (c *confiner) rootsOf(v ssa.Value) rootSet {
 						if st, ok := ins.(*ssa.Store); ok {
 							as2 := map[*ssa.Alloc]bool{}
 							allocsUnder(st.Addr, map[ssa.Value]bool{}, as2)
-							if as2[a] {
+							if as2[a] && !differentFieldPaths(st.Addr, x.X) {
 								out.addAll(c.rootsOf(st.Val))
 								resolved = true
 							}
